@@ -11,7 +11,8 @@ TRUSTED = [
 
 def run(ctx):
     gen = ctx.extract()
-    ctx.audit("Props.C17", ["c17_location", "c17_filter", "c17_old_filter_refuted"])
+    ctx.audit("Props.C17", ["c17_location", "c17_filter", "c17_old_filter_refuted", "c17_federated", "c17_prompt_flow",
+                            "c17_unfiltered_prompt_refuted", "c17_logout", "c17_logout_ctl_refuted"])
     if gen:
         compile_gen(ctx, gen)
         ctx.gen_obligations("Obl_C17.v", ["c17_sinks", "c17_pending", "c17_sinks_nonempty"])
@@ -35,8 +36,25 @@ def run(ctx):
                             first = line.strip().split("\t")
                 ctx.broken.append(("correspondence", "c17_location_vs_http.Redirect",
                                    {"first_mismatch": first, "indices": (mism or "")[:500]}))
+            for name, label, idxfile in (("c17_flow_mismatches", "login prompt of a protected page -> provider round trip: prompt kind and callback Location = model (force_redirect x request-target forms)", "CasesC17flow.idx"),
+                                         ("c17_page_mismatches", "hidden login_destination of the login page served for an unauthenticated GET = ensureHTMLSafeLoginDestination(page_destination)", "CasesC17page.idx"),
+                                         ("c17_logout_mismatches", "logout Location = model logout_location", "CasesC17logout.idx")):
+                mm = res.get(name)
+                if mm == "[]":
+                    ctx.obligations.append(("corr:" + label, True, "no mismatch"))
+                else:
+                    ctx.obligations.append(("corr:" + label, False, "mismatch indices %s" % (mm or "missing")[:200]))
+                    first = None
+                    m2 = re.search(r"\[(\d+)", mm or "")
+                    if m2 and os.path.exists(os.path.join(ctx.work, idxfile)):
+                        for line in open(os.path.join(ctx.work, idxfile)):
+                            if line.startswith("%d\t" % int(m2.group(1))):
+                                first = line.strip().split("\t")
+                    ctx.broken.append(("correspondence", name, {"first_mismatch": first, "indices": (mm or "")[:500]}))
     ctx.assumptions = ["browser behaviour is represented by the WHATWG rules in same_origin",
-                       "url.Parse success/failure enters the model as the parse_fails input computed by the real parser"]
+                       "url.Parse success/failure enters the model as the parse_fails input computed by the real parser",
+                       "r.URL.String() of the request (prompt flow) is an input computed by net/http's own request-line parser",
+                       "c17_logout: the user name of a session contains no control byte other than tab/CR/LF (whatever the password backend / identity provider admitted); c17_logout_ctl_refuted shows the hypothesis is needed"]
     return ctx.finish("bin/build-coq && coqc Audit/Obl/Cases files (see lib/core.py); go test -overlay TestVerif_C17", TRUSTED)
 
 
